@@ -71,6 +71,41 @@ func (c *emuCircuit) Define(api frontend.API) error {
 	return nil
 }
 
+// variable-modulus emulated arithmetic: the modulus is a witness of the circuit value
+type varModCircuit struct {
+	Modulus, A, B emulated.Element[emparams.Mod1e512]
+	R             emulated.Element[emparams.Mod1e512] `gnark:",public"`
+}
+
+func (c *varModCircuit) Define(api frontend.API) error {
+	f, err := emulated.NewField[emparams.Mod1e512](api)
+	if err != nil {
+		return err
+	}
+	m := f.ModMul(&c.A, &c.B, &c.Modulus)
+	s := f.ModAdd(m, &c.A, &c.Modulus)
+	f.ModAssertIsEqual(s, &c.R, &c.Modulus)
+	return nil
+}
+
+// range checks: mixes with the same number of checks and the same total of bits but different widths
+type rcMixCircuit struct {
+	V      []frontend.Variable
+	widths []int
+}
+
+func (c *rcMixCircuit) Define(api frontend.API) error {
+	rc := rangecheck.New(api)
+	for i, v := range c.V {
+		rc.Check(v, c.widths[i])
+	}
+	return nil
+}
+
+func rcMix(widths []int) func() frontend.Circuit {
+	return func() frontend.Circuit { return &rcMixCircuit{V: make([]frontend.Variable, len(widths)), widths: widths} }
+}
+
 type namedCircuit struct {
 	name string
 	t    Target
@@ -100,6 +135,21 @@ func c11Circuits(seed uint64, thorough bool) []namedCircuit {
 		}
 		out = append(out, namedCircuit{"emulated+rangecheck", t, func() frontend.Circuit { return &emuCircuit{} }})
 		out = append(out, namedCircuit{"cm2", t, func() frontend.Circuit { return &cm2{} }})
+		out = append(out, namedCircuit{"varmod", t, func() frontend.Circuit { return &varModCircuit{} }})
+		w2 := make([]int, 64)
+		w13 := make([]int, 64)
+		w5 := make([]int, 40)
+		w19 := make([]int, 40)
+		for i := range w2 {
+			w2[i] = 2
+			w13[i] = 1 + 2*(i%2)
+		}
+		for i := range w5 {
+			w5[i] = 5
+			w19[i] = 1 + 8*(i%2)
+		}
+		out = append(out, namedCircuit{"rangecheck-64x2", t, rcMix(w2)}, namedCircuit{"rangecheck-32x1+32x3", t, rcMix(w13)},
+			namedCircuit{"rangecheck-40x5", t, rcMix(w5)}, namedCircuit{"rangecheck-20x1+20x9", t, rcMix(w19)})
 	}
 	scs := Target{"bn254", bn, false}
 	out = append(out, namedCircuit{"wirequery", scs, func() frontend.Circuit { return &wireQueryCircuit{} }})
@@ -119,10 +169,29 @@ func compileHash(nc namedCircuit) string {
 	return fmt.Sprintf("%x", sha256.Sum256(b.Bytes()))
 }
 
+// the child compiles the circuits in an order that depends on its number: state left behind by one
+// compilation (package-level caches) would change what a later one produces
 func runC11Child(args []string) int {
+	order := 0
+	if len(args) > 0 && strings.HasPrefix(args[0], "order=") {
+		fmt.Sscanf(args[0], "order=%d", &order)
+		args = args[1:]
+	}
 	o := parseOpts(args)
-	for i, nc := range c11Circuits(o.Seed, o.Thorough()) {
-		fmt.Printf("%d %s\n", i, compileHash(nc))
+	cs := c11Circuits(o.Seed, o.Thorough())
+	n := len(cs)
+	for k := 0; k < n; k++ {
+		i := k
+		switch order {
+		case 1:
+			i = n - 1 - k
+		case 2:
+			i = (k*7 + 3) % n
+			if n%7 == 0 {
+				i = (k + n/2) % n
+			}
+		}
+		fmt.Printf("%d %s\n", i, compileHash(cs[i]))
 	}
 	return 0
 }
@@ -130,7 +199,7 @@ func runC11Child(args []string) int {
 func runC11(args []string) int {
 	o := parseOpts(args)
 	rep := NewReport("C11")
-	rep.Rule = "each circuit (seeded API programs on both builders and two fields; circuits with hints, lookup tables, range checks with commitment, multiple commitments, emulated arithmetic with deferred checks, the wire-to-constraint query interface with missing wires) is compiled 6 times sequentially, 8 times in concurrent goroutines interleaved with the other circuits, and once in each of 3 fresh processes; the sha256 of the serialized system must be identical in all runs; non-trivial = circuit that compiles; distinct = distinct circuit x target"
+	rep.Rule = "each circuit (seeded API programs on both builders and two fields; circuits with hints, lookup tables, range checks with commitment, multiple commitments, emulated arithmetic with deferred checks, the wire-to-constraint query interface with missing wires) is compiled 6 times sequentially from fresh values and 3 times from one reused circuit value, 8 times in concurrent goroutines interleaved with the other circuits, and once in each of 3 fresh processes that visit the circuits in different orders; the sha256 of the serialized system must be identical in all runs; non-trivial = circuit that compiles; distinct = distinct circuit x target"
 	circuits := c11Circuits(o.Seed, o.Thorough())
 	ref := make([]string, len(circuits))
 	for i, nc := range circuits {
@@ -158,6 +227,17 @@ func runC11(args []string) int {
 			rep.Count("sequential")
 		}
 	}
+	// the SAME circuit value compiled again and again (state kept in the value must not leak into the system)
+	for i, nc := range circuits {
+		c := nc.mk()
+		for rnd := 0; rnd < 3; rnd++ {
+			h := compileHash(namedCircuit{nc.name, nc.t, func() frontend.Circuit { return c }})
+			if h != ref[i] {
+				fail(i, fmt.Sprintf("from a reused circuit value (compilation %d)", rnd+1), h)
+			}
+			rep.Count("reused-value")
+		}
+	}
 	// concurrent, interleaved with the other circuits
 	var wg sync.WaitGroup
 	var mu sync.Mutex
@@ -182,7 +262,7 @@ func runC11(args []string) int {
 	// fresh processes (different map seeds, fresh global state)
 	self, _ := os.Executable()
 	for pnum := 0; pnum < 3; pnum++ {
-		out, err := exec.Command(self, "c11child", "-seed", fmt.Sprint(o.Seed), "-tier", o.Tier).Output()
+		out, err := exec.Command(self, "c11child", fmt.Sprintf("order=%d", pnum), "-seed", fmt.Sprint(o.Seed), "-tier", o.Tier).Output()
 		if err != nil {
 			rep.Fail("harness:child", err.Error(), nil)
 			continue
